@@ -355,8 +355,8 @@ End Validate.
 
 (* ---------- the domain of the conformance theorems (decidable; also evaluated on every tree of the
    correspondence run): the tree is LINKED to a well-formed reference ----------
-   At every element the validator visits: the reference is well formed (rows well formed, no name
-   declared twice, declared leaf datatypes base / varies / None), the element's own structure
+   At every element the validator visits: the reference is well formed (rows well formed, a name
+   declared twice only with unbounded cardinalities, declared leaf datatypes base / varies / None), the element's own structure
    resolves each declared child name to itself (true of every element that was created with the
    reference it is validated against), and el.to_er7() needed by the length check does not raise. *)
 
@@ -367,12 +367,26 @@ Fixpoint all_some {A} (l : list (option A)) : option (list A) :=
   | None :: _ => None
   end.
 
+(* every declaration of the name n among the rows *)
+Definition rows_of (n : str) (rows : list vchild) : list vchild :=
+  filter (fun vc => streqb (vc_name vc) n) rows.
+(* a name is declared once, or all its declarations are unbounded with at most one non-zero minimum
+   (ROL (0,-1) twice in ADT_A01): exactly the cases in which counting the children per name against
+   each declaration agrees with the declarations taken together *)
+Definition decl_ok (rows : list vchild) (vc : vchild) : bool :=
+  match rows_of (vc_name vc) rows with
+  | [_] => true
+  | ds => forallb (fun d => (vc_mx d =? -1)%Z && (0 <=? vc_mn d)%Z) ds
+          && Nat.leb (length (filter (fun d => negb (vc_mn d =? 0)%Z) ds)) 1
+  end.
+Definition dups_ok (rows : list vchild) : bool := forallb (decl_ok rows) rows.
+
 Definition rows_linked {A} (resolve : str -> option str) (nm : A -> option str) (isz : A -> bool)
            (lk : option sref -> A -> bool) (kids : list A) (rows : list (option vchild)) : bool :=
   match all_some rows with
   | None => false
   | Some rows' =>
-      nodupb streqb (map vc_name rows')
+      dups_ok rows'
       && forallb (fun vc => opt_eqb (resolve (vc_name vc)) (Some (vc_name vc))
                             && forallb (fun k => if is_named nm (vc_name vc) k then lk (Some (vc_ref vc)) k else true) kids)
                  rows'
